@@ -91,8 +91,15 @@ pub fn to_fes(bytes: &[u8]) -> Vec<u8> {
 
 /// segwit-style string: hrp 1 <version char> <data> <checksum>; variant "plain" | "m" | "bad"
 pub fn segwit_string(code: &Code, hrp: &str, ver: u8, bytes: &[u8], variant: &str) -> String {
+    segwit_string_pad(code, hrp, ver, bytes, variant, 0)
+}
+
+/// as segwit_string, with the `pad`-th padding bit (1 = least significant) of the last data symbol set
+pub fn segwit_string_pad(code: &Code, hrp: &str, ver: u8, bytes: &[u8], variant: &str, pad: usize) -> String {
     let mut data = vec![ver];
     data.extend(to_fes(bytes));
+    let padbits = (5 - (8 * bytes.len()) % 5) % 5;
+    if pad > 0 && pad <= padbits { let n = data.len(); data[n - 1] |= 1 << (pad - 1); }
     let mut ck = code.checksum(hrp, &data, variant == "m");
     if variant == "bad" { ck[1] ^= 5; }
     let mut s = format!("{}1", hrp);
